@@ -88,6 +88,10 @@ pub enum Variant {
     /// RC11 plus a total order of the SeqCst fences inside happens-before, used only to
     /// *attribute* known findings of C04 (defect D11)
     Rc11ScFenceHb,
+    /// RC11 with loom's progress rule for spin loops, used only to *attribute* known findings of
+    /// C18 (defect D24): after a loop has spun (yielded), the thread does not read again a store
+    /// it had already read before that yield once a newer store of the location exists
+    Rc11YieldFilter,
 }
 
 pub fn supported(p: &Program) -> bool {
@@ -248,9 +252,24 @@ fn succ(p: &Program, s: &XSt, t: usize, variant: Variant) -> Vec<XSt> {
         K::Load { a, mo } | K::Await { a, mo, .. } => {
             let want = if let K::Await { want, .. } = op.k { Some(want) } else { None };
             let fl = floor(s, a);
+            // attribution variant: the op index of the last loop of this thread that spun
+            let spun_at: Option<usize> = if variant == Variant::Rc11YieldFilter {
+                (0..pc).rev().find(|&i| matches!(p.threads[t][i].k, K::AwaitSpun { .. }) && s.results[t].get(i) == Some(&Res::V(1)))
+            } else {
+                None
+            };
             for (wi, &wk) in s.mo[a].iter().enumerate() {
                 if wi < fl {
                     continue;
+                }
+                if let Some(iy) = spun_at {
+                    let newer_exists = wi + 1 < s.mo[a].len();
+                    // the thread has "seen" a store if it read it - or created it: the harness
+                    // creates every atomic (its initial store) in the main thread
+                    let read_before_yield = (t == 0 && wk.0 == INIT_T) || s.evs.iter().any(|e| e.t as usize == t && (e.idx as usize) <= 2 * iy && matches!(e.k, EK::R | EK::U) && e.loc as usize == a && rf_key(s, e) == wk);
+                    if newer_exists && read_before_yield {
+                        continue;
+                    }
                 }
                 let w = find(s, wk);
                 if let Some(wv) = want {
